@@ -1032,10 +1032,16 @@ private:
 
   void cleanup()
   {
-    if (_eventFd >= 0)
     {
-      ::close(_eventFd);
-      _eventFd = -1;
+      // Serialized against poke(): a schedule()/cancel() racing stop() could have
+      // loaded the descriptor just before it is closed here and then written its
+      // wake-up into whatever file had reused that number meanwhile.
+      std::lock_guard<std::mutex> pokeLock(_pokeMutex);
+      if (_eventFd >= 0)
+      {
+        ::close(_eventFd);
+        _eventFd = -1;
+      }
     }
     if (_timerFd >= 0)
     {
@@ -1190,16 +1196,24 @@ private:
 
   void poke()
   {
-    int fd = _eventFd.load(std::memory_order_acquire);
-    if (fd < 0)
+    int err = 0;
     {
-      return; // fd closed (cleanup already ran)
+      std::lock_guard<std::mutex> pokeLock(_pokeMutex); // leaf lock, see cleanup()
+      int fd = _eventFd.load(std::memory_order_acquire);
+      if (fd < 0)
+      {
+        return; // fd closed (cleanup already ran)
+      }
+      std::uint64_t one = 1;
+      ssize_t n = ::write(fd, &one, sizeof(one));
+      if (n < 0 && errno != EAGAIN)
+      {
+        err = errno;
+      }
     }
-    std::uint64_t one = 1;
-    ssize_t n = ::write(fd, &one, sizeof(one));
-    if (n < 0 && errno != EAGAIN)
+    if (err != 0)
     {
-      handleError(TimerError::SystemError, "eventfd write failed", errno);
+      handleError(TimerError::SystemError, "eventfd write failed", err); // outside the lock: may call user code
     }
   }
 
@@ -1603,6 +1617,7 @@ private:
   int _epollFd{-1};              // only accessed from init/runLoop/cleanup (single thread)
   int _timerFd{-1};              // only accessed from init/runLoop/cleanup (single thread)
   std::atomic<int> _eventFd{-1}; // accessed cross-thread by poke()
+  std::mutex _pokeMutex;         // serializes the wake-up write (poke) against the close (cleanup)
 
   // Lifecycle management
   std::atomic<iora::common::LifecycleState> _lifecycleState{iora::common::LifecycleState::Created};
